@@ -445,6 +445,27 @@ pub const LIST7: Src = Src { toks: [
     (";", 0, RawTokenType::Op(OperatorKind::Semicolon), TokenType::Op(OperatorKind::Semicolon)),
     ("\n", 1, RawTokenType::Eof, TokenType::Eof),
 ] };
+/// CRLF line ends inside a multi-line token and in the blanks (input with Windows line endings).
+pub const LIST8: Src = Src { toks: [
+    ("{a\r\n b}", 0, RawTokenType::Comment(CommentKind::MultilineBlock), TokenType::Comment(CommentKind::MultilineBlock)),
+    ("\r\n cd", 3, RawTokenType::Identifier, TokenType::Identifier),
+    ("\r\n", 2, RawTokenType::Eof, TokenType::Eof),
+] };
+macro_rules! crlf { ($($an: ident, $bn: ident => ($c: expr)),* $(,)?) => {$(
+    cursor_harness! { fn $an() unwind(20) { a_body(LIST8, $c, $c) } }
+    cursor_harness! { fn $bn() unwind(20) { b_body(LIST8, $c, $c, false, 2, 4, false, true) } }
+)*}}
+crlf! {
+    c15_a_attach_list8crlf_c1, c15_b_relocate_list8crlf_c1 => (1),
+    c15_a_attach_list8crlf_c2, c15_b_relocate_list8crlf_c2 => (2),
+    c15_a_attach_list8crlf_c3, c15_b_relocate_list8crlf_c3 => (3),
+    c15_a_attach_list8crlf_c4, c15_b_relocate_list8crlf_c4 => (4),
+    c15_a_attach_list8crlf_c6, c15_b_relocate_list8crlf_c6 => (6),
+    c15_a_attach_list8crlf_c8, c15_b_relocate_list8crlf_c8 => (8),
+    c15_a_attach_list8crlf_c9, c15_b_relocate_list8crlf_c9 => (9),
+    c15_a_attach_list8crlf_c10, c15_b_relocate_list8crlf_c10 => (10),
+    c15_a_attach_list8crlf_c12, c15_b_relocate_list8crlf_c12 => (12),
+}
 macro_rules! chg { ($($name: ident => ($c: expr)),* $(,)?) => {$(
     cursor_harness! { fn $name() unwind(26) { b_body_changed(LIST7, $c, $c, false, 2, 4, false, true, "\'\'\'\nx\n\'\'\'") } }
 )*}}
